@@ -120,7 +120,10 @@ fn project(events: &[Ev], offset: u16, hn: u16) -> Vec<Ev> {
         .collect()
 }
 
-fn compare_runs(a: &RunResult, b: &RunResult, offset: u16, hn: u16) -> Option<String> {
+/// `normalised`: a text handler is registered on either side and the input does not round-trip in
+/// the document's encoding — the documented exception of C01 (such text is normalised through
+/// decode/encode), so the sink bytes are not comparable; H's events still are.
+fn compare_runs(a: &RunResult, b: &RunResult, offset: u16, hn: u16, normalised: bool) -> Option<String> {
     if let Some(m) = a.panicked().or(b.panicked()) {
         return Some(format!("panic: {m}"));
     }
@@ -138,7 +141,7 @@ fn compare_runs(a: &RunResult, b: &RunResult, offset: u16, hn: u16) -> Option<St
             ea.get(i), eb.get(i), ea.len(), eb.len()
         ));
     }
-    if fa.is_none() && a.out != b.out {
+    if fa.is_none() && a.out != b.out && !normalised {
         return Some(format!("sink bytes differ: alone {:?} vs with observers {:?}", lossy(&a.out), lossy(&b.out)));
     }
     None
@@ -148,7 +151,11 @@ pub fn check(h: &Prepared, hu: &Prepared, offset: u16, hn: u16, input: &[u8], sc
     let chunks = sched.chunks(input);
     let a = run(h, &chunks, true);
     let b = run(hu, &chunks, true);
-    compare_runs(&a, &b, offset, hn)
+    compare_runs(&a, &b, offset, hn, normalised(h, hu, input))
+}
+
+fn normalised(h: &Prepared, hu: &Prepared, input: &[u8]) -> bool {
+    (has_text_handler(&h.cfg) || has_text_handler(&hu.cfg)) && !roundtrips(hu.encoding, input)
 }
 
 pub fn replay(case: &Value) -> Option<String> {
@@ -175,7 +182,7 @@ fn one_input(ctx: &Ctx, pairs: &[Pair], input: &[u8], lv: Levels) {
             saw |= !a.events.is_empty();
             ctx.states.insert(digest(&(input, &s.cuts, &b.ev_len_after)));
             ctx.outcomes.insert(digest(&(&a.events, &a.out)));
-            if let Some(msg) = compare_runs(&a, &b, pr.offset, pr.hn) {
+            if let Some(msg) = compare_runs(&a, &b, pr.offset, pr.hn, normalised(&pr.h, &pr.hu, input)) {
                 let (hc, huc, inp, sc, off, hn) = (pr.h.cfg.clone(), pr.hu.cfg.clone(), input.to_vec(), s.clone(), pr.offset, pr.hn);
                 ctx.violation(
                     msg,
